@@ -460,10 +460,59 @@ def term_str(t):
     return k
 
 
+def _sig(b):
+    """signature of a raw fn body: kind, impl self type, types of the return place and the parameters"""
+    return json.dumps([b.get("kind"), b.get("impl_self"), b.get("impl_trait"), [l["ty"] for l in b["locals"][:b["argc"] + 1]]], sort_keys=True)
+
+
+def renamed_functions(raw, path):
+    """{new path: old path} for private functions that were renamed: a function of the reference tree that is missing under this configuration although the
+    reference tree has it there, and exactly one new function (not in the reference tree) in the same module/impl with the identical signature.  The loader
+    analyses the new function under the old name (callers, closures and all), so that a rename of a private helper does not lose the anchors of the rules;
+    the code that is analysed is still the code that is called."""
+    known_all = known_functions(raw["package"])
+    cfg = os.path.basename(os.path.dirname(os.path.abspath(path)))
+    per_cfg = (_KNOWN or {}).get("@by_config", {}).get(raw["package"], {}).get(cfg)
+    if known_all is None or per_cfg is None:
+        return {}
+    present = {}
+    for b in raw["bodies"]:
+        if b["kind"] != "closure":
+            present[_strip_generics(b["path"])] = b
+    missing = [k for k in per_cfg if k not in present]
+    new = [k for k in present if k not in known_all]
+    res = {}
+    used = set()
+    import hashlib
+    for m in missing:
+        cont = m.rsplit("::", 1)[0]
+        want = per_cfg[m] if isinstance(per_cfg, dict) else None
+        cands = [n for n in new if n.rsplit("::", 1)[0] == cont and n not in used and not str(present[n].get("vis") or "").startswith("Public")
+                 and (want is None or hashlib.md5(_sig(present[n]).encode()).hexdigest()[:10] == want)]
+        # exactly one new private function of the same module/impl with the identical signature, and no second missing function competes for it
+        rivals = [x for x in missing if x != m and x.rsplit("::", 1)[0] == cont and (want is None or per_cfg.get(x) == want)]
+        if len(cands) == 1 and not rivals:
+            res[present[cands[0]]["path"]] = (m, cands[0])
+            used.add(cands[0])
+    return res
+
+
 class Crate:
     def __init__(self, path):
         with open(path) as f:
-            raw = json.load(f)
+            text = f.read()
+        raw = json.loads(text)
+        self.renamed = {}
+        if not os.environ.get("VCHECK_NO_INLINE"):
+            ren = renamed_functions(raw, path)
+            if ren:
+                for newp, (oldstripped, newstripped) in ren.items():
+                    # the raw path may carry lifetime decorations (AdfParser::<'_>::f): replace the last segment only
+                    oldp = newp.rsplit("::", 1)[0] + "::" + oldstripped.rsplit("::", 1)[1]
+                    a, b_ = json.dumps(newp)[1:-1], json.dumps(oldp)[1:-1]
+                    text = text.replace('"' + a + '"', '"' + b_ + '"').replace('"' + a + '::{', '"' + b_ + '::{')
+                    self.renamed[newp] = oldp
+                raw = json.loads(text)
         self.file = path
         self.name = raw["crate"]
         self.package = raw["package"]
